@@ -26,7 +26,7 @@ from dst.world import catalogue
 
 PROP = 'C05'
 LEVEL = 'exploration'
-COUNTS = {'quick': 300, 'thorough': 6000}
+COUNTS = {'quick': 340, 'thorough': 6000}
 BUDGET = {'quick': 110, 'thorough': 1500}
 TIMEOUT = 240
 SHRINK_LISTS = [['segments_cut']]
@@ -56,6 +56,16 @@ def plans(seed, tier, count):
     for k in range(3):
         out.append({'property': PROP, 'seed': core.H('fix05off', k), 'case': '5bus/pjm5bus.json', 'knobs': {}, 'channels': {}, 'tf': 0.5,
                     'segments_cut': [], 'clock': None, 'corrupt': None, 'offline': {'unit': (k + 0.5) / 3}})
+    # one unit out of service in every exciter / governor family of the catalogue (models with iteratively initialised loops included)
+    fam = ['ieee14/ieee14_exac1.xlsx', 'ieee14/ieee14_esac1a.xlsx', 'ieee14/ieee14_ac8b.xlsx', 'ieee14/ieee14_esst3a.xlsx',
+           'ieee14/ieee14_esst4b.xlsx', 'ieee14/ieee14_esdc1a.xlsx', 'kundur/kundur_full.xlsx', 'kundur/kundur_sexs.xlsx',
+           'kundur/kundur_exst1.xlsx', 'kundur/kundur_esdc2a.xlsx', 'ieee14/ieee14_hygov.xlsx', 'ieee14/ieee14_gast.xlsx',
+           'ieee14/ieee14_ieesgo.xlsx', 'wecc/wecc_gencls.xlsx', 'ieee39/ieee39_full.xlsx', 'ieee14/ieee14_ieeet1.xlsx',
+           'ieee14/ieee14_exac4.xlsx', 'ieee14/ieee14_esst1a.xlsx']
+    for k, c in enumerate(fam):
+        for u in (0.1, 0.6):
+            out.append({'property': PROP, 'seed': core.H('fix05fam', k, u), 'case': c, 'knobs': {}, 'channels': {}, 'tf': 0.3,
+                        'segments_cut': [], 'clock': None, 'corrupt': None, 'offline': {'unit': u}})
     i = 0
     while len(out) < count:
         out.append({'stub': True, 'seed': core.H(seed, PROP, i), 'tier': tier})
@@ -104,6 +114,10 @@ def elaborate(stub):
 def _take_unit_offline(ss, pick, info):
     """Before set-up: one generating unit completely out of service (static generator, machine and its controllers)."""
     units = []
+    # converter-interfaced generation has capability curves that depend on the (now different) operating point; whether it can
+    # still reproduce its share of the power flow is a data question, so the variant is confined to synchronous systems
+    if any(mm.n and mm.group in ('DG', 'RenGen') for mm in ss.models.values()):
+        return
     for name in ('GENCLS', 'GENROU'):
         m = ss.models[name]
         for i in range(m.n):
@@ -114,7 +128,11 @@ def _take_unit_offline(ss, pick, info):
             # a cross-compound governor (IEEEG1.syn2) ties two machines into one unit: not taken apart
             compound = any(hasattr(g, 'syn2') and any(m.idx.v[i] in (a, b) and b is not None for a, b in zip(g.syn.v, g.syn2.v))
                            for g in ss.TurbineGov.models.values() if g.n)
-            if sg.class_name != 'Slack' and not compound:
+            # a static generator shared with converter-interfaced devices (PVD1, ESD1, REGCA1 ... refer to it through `gen`) is not a
+            # plain synchronous unit: switching it off would leave those devices injecting into a bus without their share
+            shared = any(mm.n and mm.group != 'SynGen' and 'gen' in mm.params and
+                         any(g2 == m.gen.v[i] for g2 in mm.gen.v) for mm in ss.models.values())
+            if sg.class_name != 'Slack' and not compound and not shared:
                 units.append((name, i, sg))
     if not units:
         return
@@ -214,12 +232,20 @@ def execute(plan):
                 v.append(V('handover', 'static generator %s %r was out of service in the power flow and is in service after dynamic '
                            'initialisation' % (n, ss.models[n].idx.v[int(on[0])]), what='static_gen_switched_on'))
         if plan.get('offline') and off_info.get('unit') and ok is False:
+            # one violation per (model, variable) with a residual: a recorded finding on one model must not hide another model
             names = ss.dae.x_name + ss.dae.y_name
-            j = int(np.argmax(np.abs(fg)))
-            toks = names[j].split(' ')
-            v.append(V('init_offline', 'with unit %s completely out of service (static generator, machine, governor, exciter) initialisation '
-                       'fails: residual %.3g at <%s>' % (off_info['unit'], float(fg[j]), names[j]), model=toks[1] if len(toks) > 1 else '?',
-                       var=toks[0]))
+            seen = set()
+            for j in np.argsort(-np.abs(np.nan_to_num(fg, nan=np.inf))):
+                if not abs(fg[j]) > max(tol, 1e-4) or len(seen) >= 6:
+                    break
+                toks = names[int(j)].split(' ')
+                key = (toks[1] if len(toks) > 1 else '?', toks[0])
+                if key in seen:
+                    continue
+                seen.add(key)
+                v.append(V('init_offline', 'with unit %s completely out of service (static generator, machine, governor, exciter) '
+                           'initialisation fails: residual %.3g at <%s>' % (off_info['unit'], float(fg[j]), names[int(j)]),
+                           model=key[0], var=key[1]))
         # --- report <=> residual
         if ok is True and not resid < tol:
             v.append(V('init_report', 'test_ok True but max residual after init is %.3g >= tol %.3g' % (resid, tol), what='true_but_residual'))
